@@ -9,8 +9,8 @@ import (
 
 func init() {
 	register(&PropDef{
-		ID:    "C04",
-		Level: "other",
+		ID:          "C04",
+		Level:       "other",
 		Explanation: "Cancel as decision/effect table plus ordering rules: (1) the internal cancel function is evaluated on all classes of (found, canceled, completed, started, scheduler present): unknown id → not-found error without effect; already canceled → nil without effect; completed → error without effect; unstarted → the job is marked canceled (and, by the canceled-site rule, leaves the wait list) → nil; running → the scheduler's Cancel is delivered on a WaitGroup-paired goroutine → nil; the HTTP handler maps not-found to 404; (2) the start function refuses canceled jobs before creating the scheduler, storing Start or spawning; (3) Scheduler.Cancel stores the flag before delegating; the scheduling loop tests the flag on every iteration before any launch; TaskRunner.Run tests ctx.Err() before compiling or executing anything; TaskRunner.Cancel cancels and then waits for all runs; (4) on no path of the scheduler that took the `cancelled == 1` edge is a possibly-nil result returned while stages may be unfinished (dischargers: a non-nil error stored to the result, the result != nil edge, the isDone == true edge; the flag is only ever set to 1), and the completion handler sets Canceled iff the result is context.Canceled.",
 		Trusted:     []string{"C13", "context cancellation reaches running commands (C20)", "upstream runner returns context.Canceled for canceled runs"},
 		NotDecided:  []string{"timing of delivery", "that the runner's Cancel actually stops processes (C20)"},
@@ -28,7 +28,7 @@ func checkC04(w *World, r *Report) {
 	// ---- 1. cancel table
 	fn := ro.CancelInt
 	fname := FuncName(fn)
-	res := w.EnumPaths(fn, EnumOpts{})
+	res := w.EnumPaths(fn, EnumOpts{Inline: true})
 	r.Count("paths", len(res.Paths))
 	J := "recv.jobsByID[arg0]"
 	vars := map[string]string{"has(" + J + ")": "found", J + ".Canceled": "canceled", J + ".Completed": "completed", J + ".Start": "startptr", J + ".sched": "schedptr", J: "found"}
@@ -47,66 +47,69 @@ func checkC04(w *World, r *Report) {
 						r.Count("valuations", 1)
 						env := map[string]int64{"found": fd, "canceled": ca, "completed": co, "startptr": st, "schedptr": sc}
 						sel, problem := selectPaths(res.Paths, vars, env, false)
-						if problem != "" || len(sel) != 1 {
+						if problem != "" || len(sel) == 0 {
 							r.Undecided("cancel.table", fname+": cancel table", w.Pos(fn.Pos()), fmt.Sprintf("cannot evaluate on %+v: %s (%d paths)", env, problem, len(sel)))
 							return
 						}
-						p := sel[0].Path
-						marks, delivers, other := false, false, ""
-						for _, e := range p.Effects {
-							switch {
-							case e.Kind == "call" && e.Callee == ro.MarkCanceled, e.Kind == "store" && strings.HasSuffix(e.Target, ".Canceled") && e.Val == "true":
-								marks = true
-							case e.Kind == "go":
-								delivers = w.deliversSchedulerCancel(e.In.(*ssa.Go))
-								if !delivers {
-									other = "spawns a goroutine that does not call the scheduler's Cancel"
+						// several paths only where an inlined helper branches on something else: each must conform
+						for _, pe := range sel {
+							p := pe.Path
+							marks, delivers, other := false, false, ""
+							for _, e := range p.Effects {
+								switch {
+								case e.Kind == "call" && e.Callee == ro.MarkCanceled, e.Kind == "store" && strings.HasSuffix(e.Target, ".Canceled") && e.Val == "true":
+									marks = true
+								case e.Kind == "go":
+									delivers = w.deliversSchedulerCancel(e.In.(*ssa.Go))
+									if !delivers {
+										other = "spawns a goroutine that does not call the scheduler's Cancel"
+									}
+								case e.Kind == "call" && e.Callee != nil && (e.Callee == ro.Persist || ro.callsWaitListRemoval(e.Callee)):
+								case e.Kind == "call" && isWGMethod(callCommonOf(e.In), "Add"):
+								case e.Kind == "store" && strings.HasPrefix(e.Target, "local"):
+								case e.Kind == "call" || e.Kind == "store" || e.Kind == "mapupdate" || e.Kind == "delete" || e.Kind == "defer":
+									other = e.String()
 								}
-							case e.Kind == "call" && e.Callee != nil && (e.Callee == ro.Persist || ro.callsWaitListRemoval(e.Callee)):
-							case e.Kind == "call" && isWGMethod(callCommonOf(e.In), "Add"):
-							case e.Kind == "store" && strings.HasPrefix(e.Target, "local"):
-							case e.Kind == "call" || e.Kind == "store" || e.Kind == "mapupdate" || e.Kind == "delete" || e.Kind == "defer":
-								other = e.String()
 							}
+							ret := ""
+							if len(p.Ret) == 1 {
+								ret = p.Ret[0]
+							}
+							var want string
+							switch {
+							case fd == 0:
+								want = "not-found error, no effect"
+								if !strings.Contains(ret, "NotFound") || marks || delivers || other != "" {
+									bad = fmt.Sprintf("unknown id: returns %s, marks=%v delivers=%v other=%s", ret, marks, delivers, other)
+								}
+							case ca == 1:
+								want = "nil, no effect"
+								if ret != "nil" || marks || delivers || other != "" {
+									bad = fmt.Sprintf("already canceled job: returns %s, marks=%v delivers=%v other=%s (must be a no-op without error)", ret, marks, delivers, other)
+								}
+							case co == 1:
+								want = "already-completed error, no effect"
+								if ret == "nil" || marks || delivers || other != "" {
+									bad = fmt.Sprintf("finished job: returns %s, marks=%v delivers=%v other=%s (a finished job must be left unchanged)", ret, marks, delivers, other)
+								}
+							case st == 0:
+								want = "marked canceled, nil"
+								if ret != "nil" || !marks || delivers {
+									bad = fmt.Sprintf("unstarted job: returns %s, marked canceled=%v delivers=%v (an acknowledged cancel of a waiting job must mark it canceled)", ret, marks, delivers)
+								}
+							case sc == 1:
+								want = "scheduler cancel delivered, nil"
+								if ret != "nil" || !delivers || marks {
+									bad = fmt.Sprintf("running job: returns %s, scheduler cancel delivered=%v, marked directly=%v (an acknowledged cancel of a running job must tell its scheduler to stop)", ret, delivers, marks)
+								}
+							default:
+								want = "nil (unreachable: a started, uncompleted job has a scheduler)"
+								if marks || delivers {
+									bad = "started job without scheduler: unexpected effect"
+								}
+							}
+							_ = want
 						}
-						ret := ""
-						if len(p.Ret) == 1 {
-							ret = p.Ret[0]
-						}
-						var want string
-						switch {
-						case fd == 0:
-							want = "not-found error, no effect"
-							if !strings.Contains(ret, "NotFound") || marks || delivers || other != "" {
-								bad = fmt.Sprintf("unknown id: returns %s, marks=%v delivers=%v other=%s", ret, marks, delivers, other)
-							}
-						case ca == 1:
-							want = "nil, no effect"
-							if ret != "nil" || marks || delivers || other != "" {
-								bad = fmt.Sprintf("already canceled job: returns %s, marks=%v delivers=%v other=%s (must be a no-op without error)", ret, marks, delivers, other)
-							}
-						case co == 1:
-							want = "already-completed error, no effect"
-							if ret == "nil" || marks || delivers || other != "" {
-								bad = fmt.Sprintf("finished job: returns %s, marks=%v delivers=%v other=%s (a finished job must be left unchanged)", ret, marks, delivers, other)
-							}
-						case st == 0:
-							want = "marked canceled, nil"
-							if ret != "nil" || !marks || delivers {
-								bad = fmt.Sprintf("unstarted job: returns %s, marked canceled=%v delivers=%v (an acknowledged cancel of a waiting job must mark it canceled)", ret, marks, delivers)
-							}
-						case sc == 1:
-							want = "scheduler cancel delivered, nil"
-							if ret != "nil" || !delivers || marks {
-								bad = fmt.Sprintf("running job: returns %s, scheduler cancel delivered=%v, marked directly=%v (an acknowledged cancel of a running job must tell its scheduler to stop)", ret, delivers, marks)
-							}
-						default:
-							want = "nil (unreachable: a started, uncompleted job has a scheduler)"
-							if marks || delivers {
-								bad = "started job without scheduler: unexpected effect"
-							}
-						}
-						_ = want
 					}
 				}
 			}
@@ -415,7 +418,7 @@ func checkCanceledVerdict(w *World, r *Report, ro *Roles) {
 		}
 	}
 	if ro.CancelInt != nil {
-		cr := w.EnumPaths(ro.CancelInt, EnumOpts{})
+		cr := w.EnumPaths(ro.CancelInt, EnumOpts{Inline: true})
 		for _, p := range cr.Paths {
 			delivers := false
 			for _, e := range p.Effects {
@@ -472,7 +475,7 @@ func checkCanceledVerdict(w *World, r *Report, ro *Roles) {
 	}
 	consumed := ""
 	if ro.Completed != nil {
-		pr := w.EnumPaths(ro.Completed, EnumOpts{})
+		pr := w.EnumPaths(ro.Completed, EnumOpts{Inline: true})
 		for f := range recorded {
 			okF, seenTrue := true, false
 			for _, p := range pr.Paths {
@@ -572,7 +575,7 @@ func checkCanceledVerdict(w *World, r *Report, ro *Roles) {
 
 	// completion handler: Canceled iff errors.Is(err, context.Canceled); LastError := err
 	if ro.Completed != nil {
-		pr := w.EnumPaths(ro.Completed, EnumOpts{})
+		pr := w.EnumPaths(ro.Completed, EnumOpts{Inline: true})
 		okIff, okErr := true, true
 		n := 0
 		for _, p := range pr.Paths {
